@@ -28,3 +28,4 @@ def run(ctx):
     ctx.run("C05.RESULT-BEFORE-META", "R-ORDER", mem.result_before_meta)
     ctx.run("C05.CODE-READER", "R-ERRDISC", mem.code_reader)
     ctx.run("C05.DELETE-TOLERANT", "R-ERRDISC", mem.delete_tolerant)
+    ctx.run("C05.INVALIDATE-ORDER", "R-ORDER", mem.invalidate_order)
